@@ -26,6 +26,8 @@ def make_cases(tier, rng, want_expr=True, n_random=None, n_tiny=None, big=None):
         knobs = rng.choice([{}, {"p_prec": 0.9}, {"max_alt": 4, "max_len": 3}, {"max_t": 3, "max_n": 3},
                             {"p_lit": 0.6}, {"max_len": 5, "max_n": 2}])
         sp = gen.rand_grammar(rng, **knobs)
+        if i % 5 == 3:
+            sp = dict(sp, eof_token=True)      # `%token EOF -1`: the documented alias of the end marker, not a symbol of the grammar
         cases.append({"id": "rand:%d" % i, "src": gen.render(sp), "kind": "rand", "spec": sp})
     for i in range(big):
         sp = gen.rand_grammar(rng, big=True, max_alt=3, max_len=4)
@@ -39,6 +41,14 @@ def make_cases(tier, rng, want_expr=True, n_random=None, n_tiny=None, big=None):
     if want_expr:
         for i in range(30 if tier == "quick" else 300):
             sp = gen.expr_grammar(rng)
+            if i % 4 == 1:
+                # named operator tokens (sorting after EOF) next to the end-marker alias
+                ren = {l: "OP%d" % k for k, l in enumerate(sp["lits"]) if l not in ("'('", "')'")}
+                sub = lambda x: ren.get(x, x)
+                sp = dict(sp, tokens=sp["tokens"] + [ren[l] for l in sp["lits"] if l in ren], lits=[l for l in sp["lits"] if l not in ren],
+                          prec=[(k, [sub(x) for x in ss]) for k, ss in sp["prec"]],
+                          rules=[dict(r, rhs=[sub(x) for x in r["rhs"]], prec=sub(r["prec"]) if r.get("prec") else r.get("prec")) for r in sp["rules"]],
+                          eof_token=True)
             cases.append({"id": "expr:%d" % i, "src": gen.render(sp), "kind": "expr", "spec": sp})
     return cases
 
